@@ -37,6 +37,7 @@ static uintptr_t h_refs[NPOOL];
 static int h_uflags[NPOOL], h_alive[NPOOL];
 static uint8_t h_live[NPOOL][NSLOT];
 static int h_alloc_fails, h_init_fails;   /* environment choices for this run */
+static int h_init_fail_at, h_init_calls;     /* the constructor may also fail at its n-th call only (0: never) */
 static int h_copies, h_finis, h_inits;
 
 static int h_index(const void *p)
@@ -58,7 +59,8 @@ static int h_init(void *ptr, const void *src)
 	h_slot(ptr, &bi, &si);
 	__CPROVER_assert(h_alive[bi], "element init: buffer is alive");
 	__CPROVER_assert(!h_live[bi][si], "element init: no construction over a live element");
-	if (h_init_fails) return MPT_ERROR(BadOperation);
+	h_init_calls++;
+	if (h_init_fails || h_init_calls == h_init_fail_at) return MPT_ERROR(BadOperation);
 	{ size_t q_; for (q_ = 0; q_ < ESZ; q_++) ((uint8_t *) ptr)[q_] = src ? ((const uint8_t *) src)[q_] : 0; if (src) h_copies++; }
 	h_live[bi][si] = 1; h_inits++;
 	return 0;
